@@ -31,7 +31,7 @@ type c05Cfg struct {
 	Class    int  `json:"class"`    // 0 full samples, 1 metadata-only + data written separately, 2 sample intervals
 	Optimize bool `json:"optimize"` // OptimizeTrun
 	SW       bool `json:"sw"`       // EncodeSW instead of Encode
-	Extra    int  `json:"extra"`    // 0 none, 1 emsg (AddEmsg), 2 free after mdat, 3 unknown box in traf, 4 uuid(tfxd) in moof, 5 prft after mdat, 6 mdat with 64-bit header, 7/8 non-zero trex defaults in the init segment, 9 media segment without styp
+	Extra    int  `json:"extra"`    // 0 none, 1 emsg (AddEmsg), 2 free after mdat, 3 unknown box in traf, 4 uuid(tfxd) in moof, 5 prft after mdat, 6 mdat with 64-bit header, 7/8 non-zero trex defaults in the init segment, 9 media segment without styp, 10 every payload carved out of one caller buffer with spare capacity behind it
 }
 
 type c05History struct {
@@ -51,6 +51,9 @@ type c05Built struct {
 	FragData [][]byte // class 1: data to be written after each fragment
 	Exp      map[uint32][]c05Expected
 	NTracks  int
+	// extra 10: the caller's buffer out of which every sample payload is carved (each followed by 8 guard bytes, so
+	// every payload slice has spare capacity) and, kept apart, what it must still hold at the end
+	Arena, ArenaWant []byte
 }
 
 func c05Sample(kind int, size uint32) mp4.Sample {
@@ -156,6 +159,44 @@ func c05Build(h *c05History) (*c05Built, error) {
 	if err := newFrag(); err != nil {
 		return nil, err
 	}
+	arenaAt := 0
+	var carved [][]byte // private copies of the payloads, in carve order
+	carve := func(n uint32) []byte {
+		if cfg.Extra != 10 {
+			return make([]byte, n)
+		}
+		d := b.Arena[arenaAt : arenaAt+int(n)] // capacity reaches to the end of the arena
+		arenaAt += int(n) + 8
+		carved = append(carved, nil)
+		return d
+	}
+	keep := func(d []byte) { // called once the harness has filled a carved payload
+		if cfg.Extra == 10 {
+			for i := range carved {
+				if carved[i] == nil {
+					carved[i] = append([]byte{}, d...)
+					if len(d) == 0 {
+						carved[i] = []byte{}
+					}
+					return
+				}
+			}
+		}
+	}
+	if cfg.Extra == 10 {
+		b.Arena = bytes.Repeat([]byte{0xEE}, 64*(len(h.Ops)+1))
+	}
+	defer func() {
+		// the harness has filled the carved payloads by now: that, and the guard value everywhere else, is the image
+		if cfg.Extra == 10 {
+			b.ArenaWant = bytes.Repeat([]byte{0xEE}, len(b.Arena))
+			at := 0
+			for _, r := range carved {
+				copy(b.ArenaWant[at:], r)
+				at += len(r) + 8
+			}
+		}
+	}()
 	for _, op := range h.Ops {
 		if op.Frag {
 			if err := newFrag(); err != nil {
@@ -165,11 +206,12 @@ func c05Build(h *c05History) (*c05Built, error) {
 		}
 		tid := uint32(op.Track + 1)
 		s := c05Sample(op.Kind, 0)
-		data := make([]byte, s.Size)
+		data := carve(s.Size)
 		for i := range data {
 			data[i] = counter
 			counter++
 		}
+		keep(data)
 		fs := mp4.FullSample{Sample: s, DecodeTime: dt[tid], Data: data}
 		// API variants that add two samples in one call: the second sample is of another kind
 		var s2 mp4.Sample
@@ -177,11 +219,12 @@ func c05Build(h *c05History) (*c05Built, error) {
 		two := !cfg.Multi && ((cfg.Class == 1 && op.API == 3) || (cfg.Class == 2 && op.API == 1))
 		if two {
 			s2 = c05Sample((op.Kind+5)%21, 0)
-			data2 = make([]byte, s2.Size)
+			data2 = carve(s2.Size)
 			for i := range data2 {
 				data2[i] = counter
 				counter++
 			}
+			keep(data2)
 		}
 		var err error
 		switch cfg.Class {
@@ -213,9 +256,9 @@ func c05Build(h *c05History) (*c05Built, error) {
 		if err != nil {
 			return nil, err
 		}
-		b.Exp[tid] = append(b.Exp[tid], c05Expected{Data: data, S: s, DecTime: dt[tid]})
+		b.Exp[tid] = append(b.Exp[tid], c05Expected{Data: append([]byte{}, data...), S: s, DecTime: dt[tid]})
 		if two {
-			b.Exp[tid] = append(b.Exp[tid], c05Expected{Data: data2, S: s2, DecTime: dt[tid] + uint64(s.Dur)})
+			b.Exp[tid] = append(b.Exp[tid], c05Expected{Data: append([]byte{}, data2...), S: s2, DecTime: dt[tid] + uint64(s.Dur)})
 			dt[tid] += uint64(s2.Dur)
 		}
 		dt[tid] += uint64(s.Dur)
@@ -479,6 +522,12 @@ func c05Run(c *vf.Ctx, h *c05History) string {
 	if eerr != nil {
 		return "encode-error: " + eerr.Error()
 	}
+	if h.Cfg.Extra == 10 {
+		if !bytes.Equal(b.Arena, b.ArenaWant) {
+			c.Fail("caller buffer written", "adding samples and encoding leave the caller's sample buffers as they were", map[string]interface{}{"history": h})
+			return "violation"
+		}
+	}
 	if c05Verify(c, h, b, enc) {
 		c.Distinct(enc)
 		return "roundtrip-ok"
@@ -553,7 +602,7 @@ func c05Configs(full bool) []c05Cfg {
 				for _, sw := range []bool{false, true} {
 					extras := []int{0}
 					if full {
-						extras = []int{0, 1, 2, 3, 4, 5, 6, 7, 8, 9}
+						extras = []int{0, 1, 2, 3, 4, 5, 6, 7, 8, 9, 10}
 					}
 					for _, ex := range extras {
 						out = append(out, c05Cfg{Multi: multi, Class: class, Optimize: opt, SW: sw, Extra: ex})
@@ -575,7 +624,7 @@ func runC05(c *vf.Ctx) {
 		c.SetBudget(4 * 60 * 1e9)
 	}
 	allKinds := []int{0, 1, 2, 3, 4, 5, 6, 7, 8, 9, 10, 11, 12, 13, 14, 15, 16, 17, 18, 19, 20}
-	c.Rule = "explicit enumeration (DFS, every prefix checked) of all operation histories on a real MediaSegment: op = add sample (16 kinds = dur{1,2} x size{1,2} x {sync,non-sync} x cto{0,-1}, plus 5 boundary kinds: dur 2^31 / 2^32-1 / 0, cto +-2^31, all fields 0) to track t in {1} or {1,2,3} through each API variant of the data class (full: AddFullSample/AddFullSampleToTrack; metadata-only + separately written data: AddSample/AddSampleToTrack/AddSamples with one and with two samples per call; intervals: AddSampleInterval with one and with two samples), or start a new fragment (<= 2 fragments); configurations = {single, multi-track} x data class x OptimizeTrun on/off x Encode/EncodeSW x extra {none, emsg, free, unknown-in-traf, uuid-in-moof, prft, 64-bit mdat header, two sets of non-zero trex defaults in the init segment, media segment without styp}. Each history is encoded, decoded by both decoders - once as one byte string and once with init and media segment as separate byte strings - (GetFullSamples per track, twice; every GetSampleInterval; GetSampleNrFromTime of every sample) and by an independent fragment reader, and compared with the added samples. Distinct = distinct encoded byte strings."
+	c.Rule = "explicit enumeration (DFS, every prefix checked) of all operation histories on a real MediaSegment: op = add sample (16 kinds = dur{1,2} x size{1,2} x {sync,non-sync} x cto{0,-1}, plus 5 boundary kinds: dur 2^31 / 2^32-1 / 0, cto +-2^31, all fields 0) to track t in {1} or {1,2,3} through each API variant of the data class (full: AddFullSample/AddFullSampleToTrack; metadata-only + separately written data: AddSample/AddSampleToTrack/AddSamples with one and with two samples per call; intervals: AddSampleInterval with one and with two samples), or start a new fragment (<= 2 fragments); configurations = {single, multi-track} x data class x OptimizeTrun on/off x Encode/EncodeSW x extra {none, emsg, free, unknown-in-traf, uuid-in-moof, prft, 64-bit mdat header, two sets of non-zero trex defaults in the init segment, media segment without styp, sample payloads carved out of one caller buffer (spare capacity and guard bytes behind each; the buffer must be unchanged afterwards)}. Each history is encoded, decoded by both decoders - once as one byte string and once with init and media segment as separate byte strings - (GetFullSamples per track, twice; every GetSampleInterval; GetSampleNrFromTime of every sample) and by an independent fragment reader, and compared with the added samples. Distinct = distinct encoded byte strings."
 	type job struct {
 		cfg   c05Cfg
 		depth int
